@@ -94,6 +94,8 @@ def main(c):
         alg = build(c)
         for b in c["budgets"][:-1]:
             alg.run(b)
+        if c.get("gauss_pending"):
+            random.gauss(0.0, 1.0)        # user code drew one Gaussian between run calls: its twin is now cached inside the generator
         platypus.save_state(c["file"], alg)
         digest = state_digest(alg)
         alg.run(c["budgets"][-1])
